@@ -59,7 +59,7 @@ class SGD(Optimizer):
         super().step()
         with synapgrad.no_grad():
             for i, p in enumerate(self.parameters):
-                grad = p._grad
+                grad = -p._grad if self.maximize else p._grad
                 
                 # Weight decay
                 if self.weight_decay != 0:
@@ -79,10 +79,7 @@ class SGD(Optimizer):
                         grad = self.momentum_buffer[i]
                 
                 # Update Parameter
-                if self.maximize:
-                    p.data += self.lr*grad
-                else:
-                    p.data -= self.lr*grad
+                p.data -= self.lr*grad
         
     
 class Adam(Optimizer):
